@@ -56,6 +56,15 @@ MUTATIONS = [
     ("C16", "is-sparse-never", "iteration_graph/_generate_ir.py", "    is_sparse = self.is_sparse_input() and (self.output is None or self.is_sparse_output())", "    is_sparse = self.is_sparse_input() and self.output is None", 1),
     ("C04", "is-assemble-true-for-compute", "kernel_type.py", "        return self == KernelType.assemble or self == KernelType.evaluate", "        return True", 1),
     ("C04", "flags-only-when-compute", "iteration_graph/_generate_ir.py", "    if self.expression != Integer(0):\n        for flag", "    if self.expression != Integer(0) and kernel_type.is_compute():\n        for flag", 1),
+    ("C03", "harmless-exhaust-reorder", "iteration_graph/identifiable_expression/_exhaust_tensor.py", "    left_exhausted = exhaust_tensor(self.left, reference)\n    right_exhausted = exhaust_tensor(self.right, reference)\n    if left_exhausted is self.left and right_exhausted is self.right:\n        # Short circuit when there are no changes\n        return self\n    elif left_exhausted == Integer(0):", "    new_right = exhaust_tensor(self.right, reference)\n    new_left = exhaust_tensor(self.left, reference)\n    left_exhausted, right_exhausted = new_left, new_right\n    if right_exhausted is self.right and left_exhausted is self.left:\n        return self\n    elif left_exhausted == Integer(0):", 0),
+    ("C16", "harmless-context-commuted", "iteration_graph/identifiable_expression/_extract_context.py", "            is_sparse=self.is_sparse and other.is_sparse,", "            is_sparse=other.is_sparse and self.is_sparse,", 0),
+    ("C01", "harmless-desugar-add-reordered", "desugar/_desugar_expression.py", "    left_indexes = set(self.left.index_participants().keys()).intersection(contract_indexes)\n    right_indexes = set(self.right.index_participants().keys()).intersection(contract_indexes)\n\n    intersection_indexes = {\n        index\n        for index in left_indexes.intersection(right_indexes)\n        if every_term_has_index(self.left, index) and every_term_has_index(self.right, index)\n    }\n\n    output = desugar.Add(\n        desugar_expression(self.left, left_indexes - intersection_indexes, ids),\n        desugar_expression(self.right, right_indexes - intersection_indexes, ids),\n    )\n\n    for index in intersection_indexes:\n        output = desugar.Contract(index, output)\n\n    return output\n\n\n@desugar_expression.register(sugar.Subtract)", "    right_indexes = set(self.right.index_participants().keys()).intersection(contract_indexes)\n    left_indexes = set(self.left.index_participants().keys()).intersection(contract_indexes)\n\n    shared = {\n        index\n        for index in right_indexes.intersection(left_indexes)\n        if every_term_has_index(self.right, index) and every_term_has_index(self.left, index)\n    }\n    new_left = desugar_expression(self.left, left_indexes - shared, ids)\n    new_right = desugar_expression(self.right, right_indexes - shared, ids)\n\n    output = desugar.Add(new_left, new_right)\n\n    for index in shared:\n        output = desugar.Contract(index, output)\n\n    return output\n\n\n@desugar_expression.register(sugar.Subtract)", 0),
+    ("C06", "harmless-c-add-locals", "codegen/_ir_to_c.py", "    return f\"{ir_to_c_expression(self.left)} + {ir_to_c_expression(self.right)}\"", "    left = ir_to_c_expression(self.left)\n    right = ir_to_c_expression(self.right)\n    return left + \" + \" + right", 0),
+    ("C04", "harmless-kernel-type-in", "kernel_type.py", "        return self == KernelType.assemble or self == KernelType.evaluate", "        return self in (KernelType.evaluate, KernelType.assemble)", 0),
+    ("C12", "harmless-deparse-fstring", "expression/ast.py", "        return left_string + \" + \" + right_string", "        return f\"{left_string} + {right_string}\"", 0),
+    ("C05", "harmless-capacity-plus-itself", "iteration_graph/_write_sparse_ir.py", "    with source.branch(GreaterThanOrEqual(pointer, capacity)):\n        source.append(capacity.assign(capacity.times(2)))", "    with source.branch(GreaterThanOrEqual(pointer, capacity)):\n        source.append(capacity.assign(capacity.plus(capacity)))", 0),
+    ("C09", "harmless-items-rename", "tensor.py", "                coordinate = tuple(prefix[mode_ordering.index(i)] for i in range(order))\n                yield coordinate, cffi_values[position]", "                coord = tuple(prefix[mode_ordering.index(dim)] for dim in range(order))\n                yield coord, cffi_values[position]", 0),
+    ("C10", "harmless-call-rename", "compile/_tensor_method.py", "            for _, _, size in actual_sizes[1:]:\n                if size != reference_size:", "            for _, _, other_size in actual_sizes[1:]:\n                if other_size != reference_size:", 0),
     ("C07", "harmless-rename-locals", "ir/_peephole.py", "    condition = peephole_expression(self.condition)\n    body = peephole_statement(self.body)\n\n    if condition == BooleanLiteral(False):\n        return Block([])\n    elif isinstance(self.body, Block) and self.body.is_empty():\n        return Block([])\n    else:\n        return Loop(condition, body)",
      "    new_body = peephole_statement(self.body)\n    cond = peephole_expression(self.condition)\n\n    if isinstance(self.body, Block) and self.body.is_empty():\n        return Block([])\n    if cond == BooleanLiteral(False):\n        return Block([])\n    return Loop(cond, new_body)", 0),
 ]
